@@ -223,6 +223,226 @@ theorem column_diff_characterisation (cols cols' : List Col) (hn : (cols'.map Co
       (∃ b ∈ cols', b.name ∉ cols.map Col.name ∧ c = .addColumn b.name) :=
   mem_columnDiff cols cols' hn c
 
+/-! ### foreign keys, indexes, checks and whole tables: arbitrary simultaneous edits -/
+
+/-- **fk_diff_characterisation** (any two foreign-key lists with distinct symbols on the desired side). -/
+theorem fk_diff_characterisation (fks fks' : List FK) (hn : (fks'.map FK.symbol).Nodup) (c : TChange) :
+    c ∈ fkDiff fks fks' ↔
+      (∃ a ∈ fks, a.symbol ∉ fks'.map FK.symbol ∧ c = .dropFK a.symbol) ∨
+      (∃ a ∈ fks, ∃ b ∈ fks', b.symbol = a.symbol ∧ fkChange a b = some c) ∨
+      (∃ b ∈ fks', b.symbol ∉ fks.map FK.symbol ∧ c = .addFK b.symbol) :=
+  mem_keyedDiff FK.symbol fkChange (fun f => .dropFK f.symbol) (fun f => .addFK f.symbol) fks fks' hn c
+
+/-- all indexes carry a name the user gave them (no generated name, hence no similarity matching). -/
+def AllNamed (l : List Idx) : Prop := ∀ i ∈ l, i.name.isSome = true ∧ i.generatedName = false
+
+theorem indexLoop_named (to : List Idx) : ∀ (frm : List Idx), AllNamed frm →
+    (∀ c, c ∈ (indexLoop to frm).1 ↔
+      (∃ i ∈ frm, (∀ j ∈ to, j.name ≠ i.name) ∧ c = .dropIndex i) ∨
+      (∃ i ∈ frm, ∃ j, to.find? (fun j => j.name = i.name) = some j ∧ indexKinds i j ≠ [] ∧
+        c = .modifyIndex i (indexKinds i j))) ∧
+    (∀ j ∈ (indexLoop to frm).2, ∃ i ∈ frm, j.name = i.name) := by
+  intro frm
+  induction frm with
+  | nil => intro _; simp [indexLoop]
+  | cons i rest ih =>
+    intro hall
+    have hi := hall i (List.mem_cons_self ..)
+    obtain ⟨ih1, ih2⟩ := ih (fun x hx => hall x (List.mem_cons_of_mem _ hx))
+    unfold indexLoop
+    rcases hl : indexLoop to rest with ⟨cs, ex⟩
+    rw [hl] at ih1 ih2
+    simp only at ih1 ih2 ⊢
+    cases hf : to.find? (fun j => j.name = i.name) with
+    | some j =>
+      simp only
+      have hjn : j.name = i.name := by simpa using List.find?_some hf
+      constructor
+      · intro c
+        by_cases hk : (indexKinds i j).isEmpty = true
+        · have hk' : indexKinds i j = [] := by simpa using hk
+          simp only [hk, if_true]
+          rw [ih1 c]
+          constructor
+          · rintro (⟨a, ha, h1, h2⟩ | ⟨a, ha, b, h1, h2, h3⟩)
+            · exact Or.inl ⟨a, List.mem_cons_of_mem _ ha, h1, h2⟩
+            · exact Or.inr ⟨a, List.mem_cons_of_mem _ ha, b, h1, h2, h3⟩
+          · rintro (⟨a, ha, h1, h2⟩ | ⟨a, ha, b, h1, h2, h3⟩)
+            · rcases List.mem_cons.mp ha with rfl | ha
+              · exact absurd hjn (h1 j (List.mem_of_find?_eq_some hf))
+              · exact Or.inl ⟨a, ha, h1, h2⟩
+            · rcases List.mem_cons.mp ha with rfl | ha
+              · rw [hf] at h1; cases h1; exact absurd hk' h2
+              · exact Or.inr ⟨a, ha, b, h1, h2, h3⟩
+        · have hk' : (indexKinds i j).isEmpty = false := by simpa using hk
+          have hne : indexKinds i j ≠ [] := by
+            intro e; rw [e] at hk'; simp at hk'
+          simp only [hk', Bool.false_eq_true, if_false]
+          constructor
+          · intro hc
+            rcases List.mem_cons.mp hc with h | h
+            · exact Or.inr ⟨i, List.mem_cons_self .., j, hf, hne, h⟩
+            · rcases (ih1 c).mp h with ⟨a, ha, h1, h2⟩ | ⟨a, ha, b, h1, h2, h3⟩
+              · exact Or.inl ⟨a, List.mem_cons_of_mem _ ha, h1, h2⟩
+              · exact Or.inr ⟨a, List.mem_cons_of_mem _ ha, b, h1, h2, h3⟩
+          · rintro (⟨a, ha, h1, h2⟩ | ⟨a, ha, b, h1, h2, h3⟩)
+            · rcases List.mem_cons.mp ha with rfl | ha
+              · exact absurd hjn (h1 j (List.mem_of_find?_eq_some hf))
+              · exact List.mem_cons_of_mem _ ((ih1 c).mpr (Or.inl ⟨a, ha, h1, h2⟩))
+            · rcases List.mem_cons.mp ha with rfl | ha
+              · rw [hf] at h1; cases h1; rw [h3]; exact List.mem_cons_self ..
+              · exact List.mem_cons_of_mem _ ((ih1 c).mpr (Or.inr ⟨a, ha, b, h1, h2, h3⟩))
+      · intro x hx
+        rcases List.mem_cons.mp hx with rfl | hx
+        · exact ⟨i, List.mem_cons_self .., hjn⟩
+        · obtain ⟨a, ha, h⟩ := ih2 x hx
+          exact ⟨a, List.mem_cons_of_mem _ ha, h⟩
+    | none =>
+      have hnone : ∀ j ∈ to, j.name ≠ i.name := by
+        intro j hj
+        have := List.find?_eq_none.mp hf j hj
+        simpa using this
+      simp only [hi.2, Bool.false_eq_true, if_false]
+      constructor
+      · intro c
+        constructor
+        · intro hc
+          rcases List.mem_cons.mp hc with h | h
+          · exact Or.inl ⟨i, List.mem_cons_self .., hnone, h⟩
+          · rcases (ih1 c).mp h with ⟨a, ha, h1, h2⟩ | ⟨a, ha, b, h1, h2, h3⟩
+            · exact Or.inl ⟨a, List.mem_cons_of_mem _ ha, h1, h2⟩
+            · exact Or.inr ⟨a, List.mem_cons_of_mem _ ha, b, h1, h2, h3⟩
+        · rintro (⟨a, ha, h1, h2⟩ | ⟨a, ha, b, h1, h2, h3⟩)
+          · rcases List.mem_cons.mp ha with rfl | ha
+            · rw [h2]; exact List.mem_cons_self ..
+            · exact List.mem_cons_of_mem _ ((ih1 c).mpr (Or.inl ⟨a, ha, h1, h2⟩))
+          · rcases List.mem_cons.mp ha with rfl | ha
+            · rw [hf] at h1; cases h1
+            · exact List.mem_cons_of_mem _ ((ih1 c).mpr (Or.inr ⟨a, ha, b, h1, h2, h3⟩))
+      · intro x hx
+        obtain ⟨a, ha, h⟩ := ih2 x hx
+        exact ⟨a, List.mem_cons_of_mem _ ha, h⟩
+
+/-- **index_diff_characterisation** (any two lists of user-named indexes, names distinct on the desired
+side): exactly a DropIndex per name that disappeared, an AddIndex per new name, and a ModifyIndex with
+exactly the differing kinds (unique / attributes / parts) per index present on both sides. -/
+theorem index_diff_characterisation (idxs idxs' : List Idx) (hn : AllNamed idxs)
+    (hd : (idxs'.map Idx.name).Nodup) (c : TChange) :
+    c ∈ indexDiff idxs idxs' ↔
+      (∃ i ∈ idxs, (∀ j ∈ idxs', j.name ≠ i.name) ∧ c = .dropIndex i) ∨
+      (∃ i ∈ idxs, ∃ j ∈ idxs', j.name = i.name ∧ indexKinds i j ≠ [] ∧ c = .modifyIndex i (indexKinds i j)) ∨
+      (∃ j ∈ idxs', (∀ i ∈ idxs, i.name ≠ j.name) ∧ c = .addIndex j) := by
+  obtain ⟨h1, h2⟩ := indexLoop_named idxs' idxs hn
+  unfold indexDiff
+  rcases hl : indexLoop idxs' idxs with ⟨cs, ex⟩
+  rw [hl] at h1 h2
+  simp only at h1 h2 ⊢
+  rw [List.mem_append, h1 c, List.mem_filterMap]
+  -- a name match in the desired list is THE element found by the search
+  have hfind : ∀ (i : Idx), ∀ j ∈ idxs', j.name = i.name → idxs'.find? (fun j => j.name = i.name) = some j := by
+    intro i j hj hji
+    cases hf : idxs'.find? (fun j => j.name = i.name) with
+    | none =>
+      have := List.find?_eq_none.mp hf j hj
+      simp [hji] at this
+    | some j' =>
+      have hj' := List.mem_of_find?_eq_some hf
+      have hn' : j'.name = i.name := by simpa using List.find?_some hf
+      congr 1
+      -- distinct names
+      have := hd
+      unfold List.Nodup at this
+      rw [List.pairwise_map] at this
+      by_cases he : j' = j
+      · exact he
+      · exfalso
+        obtain ⟨a, ha, rfl⟩ := List.getElem_of_mem hj'
+        obtain ⟨b, hb, rfl⟩ := List.getElem_of_mem hj
+        rw [List.pairwise_iff_getElem] at this
+        rcases Nat.lt_trichotomy a b with h | h | h
+        · exact this a b ha hb h (by rw [hn', hji])
+        · subst h; exact he rfl
+        · exact this b a hb ha h (by rw [hn', hji])
+  constructor
+  · rintro ((⟨i, hi, hx, hc⟩ | ⟨i, hi, j, hf, hk, hc⟩) | ⟨j, hj, hx⟩)
+    · exact Or.inl ⟨i, hi, hx, hc⟩
+    · exact Or.inr (Or.inl ⟨i, hi, j, List.mem_of_find?_eq_some hf, by simpa using List.find?_some hf, hk, hc⟩)
+    · right; right
+      by_cases hex : ex.contains j = true
+      · exfalso
+        have hm : j ∈ ex := by simpa using hex
+        simp [hm] at hx
+      · have hex' : ex.contains j = false := by simpa using hex
+        simp only [hex', Bool.false_eq_true, if_false] at hx
+        by_cases hany : (idxs.any fun i => decide (i.name = j.name)) = true
+        · simp [hany] at hx
+        · have hany' : (idxs.any fun i => decide (i.name = j.name)) = false := by simpa using hany
+          simp only [hany', Bool.false_eq_true, if_false, Option.some.injEq] at hx
+          refine ⟨j, hj, ?_, hx.symm⟩
+          intro i hi he
+          rw [List.any_eq_false] at hany'
+          exact hany' i hi (by simpa using he)
+  · rintro (⟨i, hi, hx, hc⟩ | ⟨i, hi, j, hj, hji, hk, hc⟩ | ⟨j, hj, hx, hc⟩)
+    · exact Or.inl (Or.inl ⟨i, hi, hx, hc⟩)
+    · exact Or.inl (Or.inr ⟨i, hi, j, hfind i j hj hji, hk, hc⟩)
+    · right
+      refine ⟨j, hj, ?_⟩
+      have hex : ex.contains j = false := by
+        cases hcon : ex.contains j with
+        | false => rfl
+        | true =>
+          exfalso
+          obtain ⟨i, hi, h⟩ := h2 j (by simpa using hcon)
+          exact hx i hi h.symm
+      have hany : (idxs.any fun i => decide (i.name = j.name)) = false := by
+        rw [List.any_eq_false]
+        intro i hi
+        simpa using hx i hi
+      have hnm : j ∉ ex := by simpa using hex
+      simp [hnm, hany, hc]
+
+/-- **table_diff_characterisation**: the diff of two tables is exactly the concatenation of the attribute,
+check, column, primary-key, index and foreign-key changes – so the characterisations above describe
+every `ModifyTable` for arbitrary simultaneous edits. -/
+theorem table_diff_characterisation (a b : Table) (c : TChange) :
+    c ∈ tableDiff a b ↔
+      (a.attrs ≠ b.attrs ∧ c = .modifyAttr) ∨ c ∈ checksDiff a.checks b.checks ∨ c ∈ columnDiff a.cols b.cols ∨
+      c ∈ pkDiff a.pk b.pk ∨ c ∈ indexDiff a.idxs b.idxs ∨ c ∈ fkDiff a.fks b.fks := by
+  unfold tableDiff
+  simp only [List.mem_append]
+  by_cases h : a.attrs = b.attrs
+  · simp [h]
+    constructor
+    · rintro ((((h | h) | h) | h) | h)
+      · exact Or.inl h
+      · exact Or.inr (Or.inl h)
+      · exact Or.inr (Or.inr (Or.inl h))
+      · exact Or.inr (Or.inr (Or.inr (Or.inl h)))
+      · exact Or.inr (Or.inr (Or.inr (Or.inr h)))
+    · rintro (h | h | h | h | h)
+      · exact Or.inl (Or.inl (Or.inl (Or.inl h)))
+      · exact Or.inl (Or.inl (Or.inl (Or.inr h)))
+      · exact Or.inl (Or.inl (Or.inr h))
+      · exact Or.inl (Or.inr h)
+      · exact Or.inr h
+  · have hb : (a.attrs != b.attrs) = true := by simpa using h
+    simp only [hb, if_true, List.mem_singleton, ne_eq, h, not_false_eq_true, true_and]
+    constructor
+    · rintro (((((h | h) | h) | h) | h) | h)
+      · exact Or.inl h
+      · exact Or.inr (Or.inl h)
+      · exact Or.inr (Or.inr (Or.inl h))
+      · exact Or.inr (Or.inr (Or.inr (Or.inl h)))
+      · exact Or.inr (Or.inr (Or.inr (Or.inr (Or.inl h))))
+      · exact Or.inr (Or.inr (Or.inr (Or.inr (Or.inr h))))
+    · rintro (h | h | h | h | h | h)
+      · exact Or.inl (Or.inl (Or.inl (Or.inl (Or.inl h))))
+      · exact Or.inl (Or.inl (Or.inl (Or.inl (Or.inr h))))
+      · exact Or.inl (Or.inl (Or.inl (Or.inr h)))
+      · exact Or.inl (Or.inl (Or.inr h))
+      · exact Or.inl (Or.inr h)
+      · exact Or.inr h
+
 /-- **diff_count**: the number of changes is the number of tables that produce one (no table is
 reported twice). -/
 theorem diff_count (s s' : List Table) :
